@@ -13,7 +13,7 @@ use crate::libcodec;
 use crate::pipe::ReadEnd;
 use crate::props::parse_case;
 use crate::refcodec;
-use crate::sim::{run_sim, Kind, Out, Sim, ALL_KINDS};
+use crate::sim::{run_sim, Frames, Kind, Out, Sim, ALL_KINDS};
 use crate::simx;
 use crate::streams;
 
@@ -470,6 +470,37 @@ fn stage_outcome(c: &StageCase) -> Outcome {
                 }
             }
             let _ = sim.settle().await;
+            // what the peer sent may only surface later, inside the APPLICATION's own calls
+            // (a stored subscription, a registered identity, a queued envelope): the
+            // application sends a few messages of different shapes; results are irrelevant,
+            // only panics / hangs count
+            if rv.is_none() && kind.can_send() {
+                let id = match sim.out(a) {
+                    Some(Out::Attach(Ok(id))) => id.clone(),
+                    _ => b"nobody".to_vec(),
+                };
+                let shapes: Vec<Frames> = vec![vec![vec![]], vec![b"x".to_vec()], vec![b"hi".to_vec(), vec![]], vec![vec![7u8; 300], b"y".to_vec(), vec![]]];
+                for m in shapes {
+                    let m: Frames = if kind == Kind::Router {
+                        let mut r = vec![id.clone()];
+                        r.extend(m);
+                        r
+                    } else {
+                        m
+                    };
+                    let sa = sim.send(s, &m);
+                    match sim.run(sa).await {
+                        Ok(None) => {
+                            sim.cancel(sa);
+                        }
+                        Ok(Some(_)) => {}
+                        Err(e) => {
+                            fail!(f, format!("C03/socket/{}/spin", kind.name()), "an application send after hostile input does not settle: {:?}", e);
+                            return (f, admitted);
+                        }
+                    }
+                }
+            }
             (f, admitted)
         })
     });
@@ -777,6 +808,29 @@ fn stage_catalogue(t: Tier) -> Vec<StageCase> {
             s.extend_from_slice(&refcodec::encode_message(&[vec![], b"after the flood".to_vec()]));
             hostile_parts.push(s);
         }
+    }
+    // well-formed subscription MESSAGES with long / odd prefixes (stored by PUB/XPUB, used later
+    // when the application publishes something shorter)
+    for m in [
+        {
+            let mut t = vec![1u8];
+            t.extend_from_slice(&[b'a'; 40]);
+            vec![t]
+        },
+        {
+            let mut t = vec![1u8];
+            t.extend_from_slice(&[0xFFu8; 300]);
+            vec![t]
+        },
+        {
+            let mut t = vec![0u8];
+            t.extend_from_slice(&[b'a'; 40]);
+            vec![t]
+        },
+        vec![vec![1u8, 0, 1, 0]],
+        vec![vec![1u8], vec![1u8, b'x']],
+    ] {
+        hostile_parts.push(refcodec::encode_message(&m));
     }
     // envelope-rule violations and oddities as traffic
     for m in [vec![vec![]], vec![vec![], vec![]], vec![b"x".to_vec()], vec![vec![0u8]], vec![vec![1u8]], vec![vec![2u8, 3]], vec![vec![1u8], vec![1u8]], vec![vec![9u8; 300]; 3]] {
